@@ -468,11 +468,14 @@ def merge_runs(data: ArrayLike, digits: Optional[Integer] = None):
         return data
     mask = np.zeros(len(data), dtype=bool)
     mask[0] = True
-    # not `np.abs`: the most negative value of a signed integer
-    # type is its own absolute value so a wrapped difference of
-    # exactly half the range of the type would look like a repeat
-    delta = data[1:] - data[:-1]
-    mask[1:] = np.logical_or(delta > epsilon, delta < -epsilon)
+    if data.dtype.kind in "iub":
+        # integers are compared exactly whatever `digits` is: their
+        # difference can wrap around the range of the type and for
+        # `digits <= 0` values one apart would count as repeats
+        mask[1:] = data[1:] != data[:-1]
+    else:
+        delta = data[1:] - data[:-1]
+        mask[1:] = np.logical_or(delta > epsilon, delta < -epsilon)
 
     return data[mask]
 
